@@ -29,8 +29,8 @@ def _rot_src(k, i, j):
 @register
 class FlatPackH(Harness):
     ENV = "FlatPack"
-    QUICK = ["FlatPack@2x2"]
-    THOROUGH = ["FlatPack@3x2"]
+    QUICK = ["FlatPack@2x2", "FlatPack@3x2"]       # 3x2: non-square grid (7x5) with inner blocks - a row/column mix-up is invisible at 2x2
+    THOROUGH = ["FlatPack@2x3"]
     INVALID = "ignore"
     MULTI_DISCRETE = True
     UNROLL = 16
